@@ -710,3 +710,95 @@ def compare(got, exp, run, text=""):
     if "[" in text:
         return "unjudged"
     return "bad"
+
+
+# --------------------------------------------------------------------------- token-level rendering and AST surgery
+def render_tokens(n):
+    """Token list whose blank-joined text parses to the same tree as render(n)."""
+    t = n[0]
+
+    def ids(i):
+        return (["|"] + list(i) + ["|"]) if i else []
+    if t == "cat":
+        out = []
+        for c in n[1]:
+            out += render_tokens(c)
+        return out
+    if t in ("alt", "or"):
+        out = ["("]
+        for k, c in enumerate(n[1]):
+            if k:
+                out.append("," if t == "alt" else "||")
+            out += render_tokens(c)
+        return out + [")"]
+    if t == "par":
+        return ["("] + ids(n[1]) + render_tokens(n[2]) + [")"]
+    if t == "cap":
+        body = render_tokens(n[2])
+        if not n[1] and not body:
+            body = ["(", ")"]
+        return ["["] + ids(n[1]) + body + ["]"]
+    if t == "sub":
+        return ["?(" if n[1] else "!("] + ids(n[2]) + render_tokens(n[3]) + [")"]
+    if t == "infix":
+        return ["("] + render_tokens(n[2]) + [n[1]] + render_tokens(n[3]) + [")"]
+    if t == "let":
+        return ["let"] + list(n[1]) + [":="] + render_tokens(n[2]) + [";"]
+    if t == "if":
+        return ["if", "("] + render_tokens(n[1]) + [")", "then", "("] + render_tokens(n[2]) + [")", "else", "("] + render_tokens(n[3]) + [")"]
+    if t in ("star", "plus", "opt"):
+        return ["("] + render_tokens(n[1]) + [")", {"star": "*", "plus": "+", "opt": "?"}[t]]
+    if t == "block":
+        return ["{"] + ids(n[1]) + render_tokens(n[2]) + ["}"]
+    return [render(n)]
+
+
+def children(n):
+    """[(path, child)] for the direct sub-programs of n."""
+    t = n[0]
+    if t in ("cat", "alt", "or"):
+        return [((1, i), c) for i, c in enumerate(n[1])]
+    if t in ("par", "cap", "let", "block"):
+        return [((2,), n[2])]
+    if t == "sub":
+        return [((3,), n[3])]
+    if t == "infix":
+        return [((2,), n[2]), ((3,), n[3])]
+    if t == "if":
+        return [((1,), n[1]), ((2,), n[2]), ((3,), n[3])]
+    if t in ("star", "plus", "opt"):
+        return [((1,), n[1])]
+    if t == "fmt":
+        return [((1, i, 1), p[1]) for i, p in enumerate(n[1]) if not isinstance(p, bytes) and p[0] == "splice"]
+    if t == "raw":
+        return []
+    return []
+
+
+def with_child(n, path, new):
+    if len(path) == 1:
+        return n[:path[0]] + (new,) + n[path[0] + 1:]
+    if len(path) == 2:
+        lst = list(n[path[0]])
+        lst[path[1]] = new
+        return n[:path[0]] + (lst,) + n[path[0] + 1:]
+    lst = list(n[path[0]])
+    part = lst[path[1]]
+    lst[path[1]] = part[:path[2]] + (new,) + part[path[2] + 1:]
+    return n[:path[0]] + (lst,) + n[path[0] + 1:]
+
+
+def positions(n, prefix=()):
+    """All (path-of-paths, node) in pre-order, root first."""
+    yield prefix, n
+    for p, c in children(n):
+        for x in positions(c, prefix + (p,)):
+            yield x
+
+
+def replace_at(n, pp, new):
+    if not pp:
+        return new
+    p = pp[0]
+    child = dict(children(n))[p]
+    return with_child(n, p, replace_at(child, pp[1:], new))
